@@ -52,6 +52,8 @@ func runC01(r *Run) {
 		ok := fn == "tmi.kState.ShiftVotingToCommitting" || fn == "tmi.Kernel.loadInitialCommittingView" || fn == "tmi.NewKernel"
 		r.Check(ok, "C01.1", "assign(kState.Committing)@"+fn, w.InstrPos(fw.Instr), "whole-view assignment of the committing view: "+pathString(fw.Path))
 	}
+	r.Rule("C01.12", "the message a signature proof verifies against is its own: sign bytes handed to a proof constructor (which keeps the slice) never share the backing array of a buffer that is reset and rewritten for the next block hash, so signatures for one hash cannot be merged into the proof filed under another")
+	bufferAliasing(r, "C01.12")
 	r.Rule("C01.11", "the certificate recorded with a committed header stays the one it was committed on: the saved commit proof is a private copy of the voting view's previous-commit proof")
 	storedCommitProofIsPrivate(r, "C01.11")
 	r.Expect("C01.1", 4, "shift caller, committing header writers, committing view assignments")
